@@ -14,6 +14,7 @@
    entries) never contained it; the model never writes the secret anywhere but the header (by inspection of
    enc_entry / node / page codecs); tools/c12.py searches the raw bytes of all four files for every 16-byte
    window of the key and enumerates all crash points inside make_read_only. *)
+From HC Require Import SoundCoreLib SoundCore ReplicaDisk1 ReplicaMiscB.
 From HC Require Import ClearRefine Unified1 CrashClear1 ReadOnlyClear.
 From HC Require Import Base NMap Codec Crypto FlatTree Storage Bitfield Oplog Merkle Core CoreFacts.
 From HC Require Import Refine Reopen ReadOnly.
@@ -404,6 +405,141 @@ Theorem C12_with_clears_secret_gone_after_any_completed_call :
                  kp_public (c_keypair c2) = kp_public (c_keypair c))).
 Proof. exact secret_gone_after_any_completed_call_Y. Qed.
 
+Theorem C12_replica_make_read_only :
+  forall cr : crypto,
+         OplogFacts.crc_ok cr ->
+         (forall x : bytes, Datatypes.length (cr_hash cr x) = 32%nat) ->
+         (forall x : bytes, all_zero (cr_hash cr x) = false) ->
+         (forall x : bytes, bytes_ok (cr_hash cr x) = true) ->
+         forall bs : list bytes,
+         writer_fits bs ->
+         forall (c : core) (d : disk) (j : list sop) (ev : list event) (H : N -> bool),
+         RDInv cr bs c d H ->
+         let bits := ol_bits (c_oplog c) in
+         exists d' : disk,
+           core_make_read_only cr c {| w_disk := d; w_journal := j; w_events := ev |} =
+           (ro_core c, {| w_disk := d'; w_journal := rev (ro_ops cr c) ++ j; w_events := ev |}, Ok false) /\
+           apply_sops d (ro_ops cr c) = Some d' /\
+           RDInv cr bs (ro_core c) d' H /\
+           c_keypair (ro_core c) = c_keypair c /\
+           c_header (ro_core c) = c_header c /\
+           kp_secret (hd_keypair (c_header c)) = None /\
+           t_length (c_tree (ro_core c)) = t_length (c_tree c) /\
+           t_unflushed (c_tree (ro_core c)) = nm_empty /\
+           bf_dirty (c_bitfield (ro_core c)) = [] /\
+           ol_entries_len (c_oplog (ro_core c)) = 0 /\
+           ol_entries_bytes (c_oplog (ro_core c)) = 0 /\
+           d_data d' = d_data d /\
+           f_content (d_oplog d') =
+           slot_bytes cr (negb (fst bits)) (c_header c) ++ slot_bytes cr (negb (snd bits)) (c_header c) /\
+           f_len (d_oplog d') = ENTRIES_OFFSET.
+Proof. exact replica_make_read_only. Qed.
+
+Theorem C12_replica_make_read_only_observations :
+  forall cr : crypto,
+         OplogFacts.crc_ok cr ->
+         (forall x : bytes, Datatypes.length (cr_hash cr x) = 32%nat) ->
+         (forall x : bytes, all_zero (cr_hash cr x) = false) ->
+         (forall x : bytes, bytes_ok (cr_hash cr x) = true) ->
+         forall bs : list bytes,
+         writer_fits bs ->
+         forall (c : core) (d : disk) (j : list sop) (ev : list event) (H : N -> bool),
+         RDInv cr bs c d H ->
+         let r := t_length (c_tree c) in
+         exists d' : disk,
+           core_make_read_only cr c {| w_disk := d; w_journal := j; w_events := ev |} =
+           (ro_core c, {| w_disk := d'; w_journal := rev (ro_ops cr c) ++ j; w_events := ev |}, Ok false) /\
+           RDInv cr bs (ro_core c) d' H /\
+           obs_replica bs c d H r /\
+           obs_replica bs (ro_core c) d' H r /\
+           core_info (ro_core c) = core_info c /\
+           i_writeable (core_info c) = false /\
+           i_length (core_info (ro_core c)) = r /\
+           (forall i : N, core_has (ro_core c) i = core_has c i) /\
+           (forall (i : N) (j' : list sop) (ev' : list event),
+            snd (core_get i (ro_core c) {| w_disk := d'; w_journal := j'; w_events := ev' |}) =
+            snd (core_get i c {| w_disk := d; w_journal := j'; w_events := ev' |}) /\
+            w_events (snd (fst (core_get i (ro_core c) {| w_disk := d'; w_journal := j'; w_events := ev' |}))) =
+            w_events (snd (fst (core_get i c {| w_disk := d; w_journal := j'; w_events := ev' |})))) /\
+           (forall (f : option bool) (batch : list bytes) (w : world),
+            core_append cr f batch c w = (c, w, Err NotWritable)) /\
+           (forall (f : option bool) (batch : list bytes) (w : world),
+            core_append cr f batch (ro_core c) w = (ro_core c, w, Err NotWritable)).
+Proof. exact replica_make_read_only_observations. Qed.
+
+Theorem C12_replica_append_refused :
+  forall (cr : crypto) (bs : list bytes) (c : core) (d : disk) (H : N -> bool) 
+           (f : option bool) (batch : list bytes) (w : world),
+         RDInv cr bs c d H -> core_append cr f batch c w = (c, w, Err NotWritable).
+Proof. exact replica_append_refused. Qed.
+
+Theorem C12_replica_read_only_reopen :
+  forall cr : crypto,
+         OplogFacts.crc_ok cr ->
+         (forall x : bytes, Datatypes.length (cr_hash cr x) = 32%nat) ->
+         (forall x : bytes, all_zero (cr_hash cr x) = false) ->
+         (forall x : bytes, bytes_ok (cr_hash cr x) = true) ->
+         forall bs : list bytes,
+         writer_fits bs ->
+         forall (c : core) (d : disk) (j : list sop) (ev : list event) (H : N -> bool),
+         RDInv cr bs c d H ->
+         exists (d' : disk) (c2 : core),
+           core_make_read_only cr c {| w_disk := d; w_journal := j; w_events := ev |} =
+           (ro_core c, {| w_disk := d'; w_journal := rev (ro_ops cr c) ++ j; w_events := ev |}, Ok false) /\
+           core_open cr None true d' = (d', [], Ok c2) /\
+           RDInv cr bs c2 d' H /\
+           c_tree c2 = flushed_tree (c_tree c) /\
+           c_header c2 = c_header c /\
+           c_keypair c2 = c_keypair c /\
+           kp_secret (c_keypair c2) = None /\
+           ol_entries_len (c_oplog c2) = 0 /\
+           obs_replica bs c2 d' H (t_length (c_tree c)) /\
+           core_info c2 = core_info c /\
+           i_writeable (core_info c2) = false /\
+           (forall i : N, core_has c2 i = core_has c i) /\
+           (forall (i : N) (j' : list sop) (ev' : list event),
+            snd (core_get i c2 {| w_disk := d'; w_journal := j'; w_events := ev' |}) =
+            snd (core_get i c {| w_disk := d; w_journal := j'; w_events := ev' |}) /\
+            w_events (snd (fst (core_get i c2 {| w_disk := d'; w_journal := j'; w_events := ev' |}))) =
+            w_events (snd (fst (core_get i c {| w_disk := d; w_journal := j'; w_events := ev' |})))) /\
+           (forall (f : option bool) (batch : list bytes) (w : world),
+            core_append cr f batch c2 w = (c2, w, Err NotWritable)).
+Proof. exact replica_read_only_reopen. Qed.
+
+Theorem C12_replica_make_read_only_crash_recovers :
+  forall cr : crypto,
+         OplogFacts.crc_ok cr ->
+         (forall x : bytes, Datatypes.length (cr_hash cr x) = 32%nat) ->
+         (forall x : bytes, all_zero (cr_hash cr x) = false) ->
+         (forall x : bytes, bytes_ok (cr_hash cr x) = true) ->
+         forall bs : list bytes,
+         writer_fits bs ->
+         forall (c : core) (d : disk) (j : list sop) (ev : list event) (H : N -> bool),
+         RDInv cr bs c d H ->
+         exists (ops : list sop) (d' : disk),
+           core_make_read_only cr c {| w_disk := d; w_journal := j; w_events := ev |} =
+           (ro_core c, {| w_disk := d'; w_journal := rev ops ++ j; w_events := ev |}, Ok false) /\
+           ops = ro_ops cr c /\
+           apply_sops d ops = Some d' /\
+           (forall k : nat,
+            exists dk : disk,
+              apply_sops d (firstn k ops) = Some dk /\
+              RDisk cr bs (kp_public (c_keypair c)) dk H (t_length (c_tree c)) /\
+              (exists (c2 : core) (d2 : disk) (rops : list sop),
+                 core_open cr None true dk = (d2, rops, Ok c2) /\
+                 RDInv cr bs c2 d2 H /\
+                 obs_replica bs c2 d2 H (t_length (c_tree c)) /\
+                 c_keypair c2 = c_keypair c /\
+                 t_length (c_tree c2) = t_length (c_tree c) /\
+                 core_info c2 = core_info c /\
+                 (forall i : N, core_has c2 i = core_has c i) /\
+                 (forall (i : N) (j' : list sop) (ev' : list event),
+                  snd (core_get i c2 {| w_disk := d2; w_journal := j'; w_events := ev' |}) =
+                  snd (core_get i c {| w_disk := d; w_journal := j'; w_events := ev' |})) /\
+                 (forall (f : option bool) (batch : list bytes) (w : world),
+                  core_append cr f batch c2 w = (c2, w, Err NotWritable)))).
+Proof. exact replica_make_read_only_crash_recovers. Qed.
+
 Print Assumptions C12_not_writable.
 Print Assumptions C12_call_reports_writability.
 Print Assumptions C12_secret_erased_in_every_case.
@@ -433,3 +569,8 @@ Print Assumptions ReadOnlyClear.toy_read_only_clear_run.
 Print Assumptions ReadOnlyClear.toy_read_only_clear_crash.
 Print Assumptions ReadOnlyClear.toy_clear_secret_gone_after_crash_then_second_call.
 Print Assumptions ReadOnlyClear.toy_cstate_YInv.
+Print Assumptions C12_replica_make_read_only.
+Print Assumptions C12_replica_make_read_only_observations.
+Print Assumptions C12_replica_append_refused.
+Print Assumptions C12_replica_read_only_reopen.
+Print Assumptions C12_replica_make_read_only_crash_recovers.
